@@ -11,10 +11,10 @@ for ID in "$@"; do
   P=${ID:0:3}
   git -C $WT checkout -q -- . ; git -C $WT clean -fdq
   git -C $WT apply /verif/seeded/$ID/patch.diff 2>/dev/null || { echo "$ID PATCH-FAILED"; continue; }
-  for t in extract:Generated closures:GenClosures aggs:GenAgg maps:GenMap drivers:GenDrv gens:GenLin parts:GenPart fdiff:GenFd finals:GenFin quant:GenQuant ranks:GenRank; do
+  for t in extract:Generated closures:GenClosures aggs:GenAgg maps:GenMap drivers:GenDrv gens:GenLin parts:GenPart fdiff:GenFd finals:GenFin quant:GenQuant ranks:GenRank reads:GenReads; do
     python3 /verif/translator/${t%%:*}.py $WT $LP/Tv/${t##*:}.lean >/dev/null 2>&1
   done
-  T="Tv.Thm.$P"; for s in GenA GenB Gen; do [ -f $LP/Tv/Thm/$P$s.lean ] && T="$T Tv.Thm.$P$s"; done
+  T="Tv.Thm.$P"; for s in GenA GenB GenC Gen; do [ -f $LP/Tv/Thm/$P$s.lean ] && T="$T Tv.Thm.$P$s"; done
   if (cd $LP && lake build $T >/dev/null 2>&1); then echo "$ID BUILD-OK"; else echo "$ID BUILD-BROKEN"; fi
 done
 git -C /repo worktree remove --force $WT >/dev/null 2>&1; git -C /repo worktree prune
